@@ -123,7 +123,14 @@ def run_history(api, rnd, tid, lines, tracks, attached, edits, prefill, fresh=Fa
                         yield (k - 1) // tracks, (k - 1) % tracks, mk(c)
                     if fail_at == len(calls) and exc is not NonNote:
                         raise exc()
-                r = pat.set_via_gen(gen)
+                form = ed.get("form", "generator")
+                if form == "generator":
+                    r = pat.set_via_gen(gen)
+                else:
+                    def other(p, new, form=form):
+                        items = list(gen(p, new))
+                        return {"list": items, "iter": iter(items), "tuple": tuple(items), "map": map(lambda x: x, items)}[form]
+                    r = pat.set_via_gen(other)
         except BaseException as e:
             # the callable's failure propagates (Python may re-wrap it, e.g. StopIteration inside a generator -> RuntimeError)
             ev.append({"op": "fail", "outcome": "callable-exception" if fail_at is not None else "unexpected:" + type(e).__name__,
@@ -171,6 +178,8 @@ def run(ctx):
             return [0, 0, 0, 0, 0]
         return [rnd.choice(cmds), rnd.randrange(130), rnd.choice([0, 1, 2, 9]), rnd.randrange(65536), rnd.randrange(65536)]
 
+    nforms = [0]
+
     def edit(setter, ncells, fail_at, partial):
         if setter == "fn":
             notes = [(k, rcell()) for k in range(1, ncells + 1)]
@@ -190,6 +199,11 @@ def run(ctx):
             d["inplace"] = set(rnd.sample(range(len(notes)), rnd.randrange(0, len(notes) + 1))) if notes else set()
         elif setter == "gen" and rnd.random() < 0.6:      # direct edits of the working array; one time in three nothing is yielded at all
             d["direct"] = set(range(len(notes))) if rnd.random() < 0.34 else set(rnd.sample(range(len(notes)), rnd.randrange(0, len(notes) + 1))) if notes else set()
+        # how a "generator" callable hands its cells over: a generator, or any other iterable (list, iterator, tuple, map object)
+        nforms[0] += 1
+        d["form"] = ("generator", "list", "generator", "iter", "tuple", "generator", "map")[nforms[0] % 7]
+        if d.get("direct") or d.get("inplace"):
+            d["form"] = "generator"       # (edits of the working array interleave with the yields only in a real generator)
         return d
     traces = []
     shapes = [(1, 1), (1, 2), (2, 1), (2, 2), (3, 2), (2, 3), (3, 3)]
